@@ -39,9 +39,10 @@ def run(ctx):
     explained, reproduced = {}, {}
     if mism:
         devix = S.dev_relations(ctx, c)
+        ideal_ix = R.index_relation(ideal.edges, S.base_act)
         seen = set()
         for mm in mism:
-            devs = R.classify(mm, devix, S.base_act, S.proj, S.same_result) if mm.get("step", -1) >= 0 else []
+            devs = R.classify(mm, devix, S.base_act, S.proj, S.same_result, ideal_ix) if mm.get("step", -1) >= 0 else []
             dev = devs[0] if devs else None
             a = mm.get("a", {})
             cls = dev or "unexplained:%s:%s" % (a.get("act"), mm.get("real_res"))
